@@ -243,6 +243,69 @@ def publishver(F, rep, bodies):
                             "text: the client cannot discard diagnostics computed from an older version",
                             file=f.file, line=t.get("ln"), fn=f.path))
     rep.floor("PUBLISHVER", "publish_diagnostics calls in analyze_document", n, 3)
+    # diagnostics published FOR A DEPENDENCY (collect_dependency_modules) carry the version of the dependency's own
+    # open document (DocumentState.version), never the version of the importing file
+    g = next((b for p, b in bodies.items() if "collect_dependency_modules" in p and p.endswith("{closure#0}")), None)
+    if rep.anchor("PUBLISHVER", "collect_dependency_modules body", g):
+        fam = [g] + [F.fns[q] for q in F.fns if q.startswith(g.path + "::{closure")]
+        m = 0
+        for bi, t in g.calls():
+            if not (callee_name(t) or "").endswith("Client::publish_diagnostics"):
+                continue
+            m += 1
+            a = op_place(t["args"][3]) if len(t["args"]) > 3 else None
+            ok = False
+            if a is not None:
+                locs, calls, _ = backward_slice(g, [a["l"]])
+                fields = set()
+                for h in fam:
+                    for b in h.blocks:
+                        for st in b["st"]:
+                            if st["s"] != "assign":
+                                continue
+                            if h is g and st["d"]["l"] not in locs:
+                                continue
+                            rv = st["rv"]
+                            pls = [op_place(o) for o in iter_operands_rv(rv)]
+                            if "p" in rv and isinstance(rv["p"], dict):
+                                pls.append(rv["p"])
+                            for pl in pls:
+                                if pl:
+                                    fields |= {(x[0].split("::")[-1], x[2]) for x in place_fields(pl)}
+                # closures built in the slice (dep_doc.map(|d| d.version)) belong to it
+                used_closures = set()
+                for b in g.blocks:
+                    for st in b["st"]:
+                        if st["s"] == "assign" and st["d"]["l"] in locs and st["rv"]["r"] == "agg" and \
+                                st["rv"].get("ak") == "closure":
+                            used_closures.add(st["rv"]["def"])
+                cl_fields = set()
+                for q in used_closures:
+                    h = F.fns.get(q)
+                    if h is None:
+                        continue
+                    for b in h.blocks:
+                        for st in b["st"]:
+                            if st["s"] == "assign":
+                                rv = st["rv"]
+                                pls = [op_place(o) for o in iter_operands_rv(rv)]
+                                if "p" in rv and isinstance(rv["p"], dict):
+                                    pls.append(rv["p"])
+                                for pl in pls:
+                                    if pl:
+                                        cl_fields |= {(x[0].split("::")[-1], x[2]) for x in place_fields(pl)}
+                ok = ("DocumentState", "version") in cl_fields or \
+                     (("DocumentState", "version") in fields and not used_closures)
+            inst = "collect_dependency_modules:publish#%d" % m
+            rep.oblige("PUBLISHVER", inst, ok, sample={"rule": "PUBLISHVER", "site": inst, "line": t.get("ln"),
+                                                       "version_is_the_dependency_documents": ok})
+            if not ok:
+                rep.add(Finding("PUBLISHVER", "PUBLISHVER|%s" % inst,
+                                "diagnostics published for a dependency do not carry that dependency document's own "
+                                "version (DocumentState.version is not what flows into the version argument): the "
+                                "client sees the dependency at a version it never sent, or falls back to an older one",
+                                file=g.file, line=t.get("ln"), fn=g.path))
+        rep.floor("PUBLISHVER", "publish_diagnostics calls in collect_dependency_modules", m, 2)
 
 
 def handlers(F, rep, bodies):
